@@ -232,3 +232,53 @@ func CounterBlock(j0 []byte, i uint32) []byte {
 	binary.BigEndian.PutUint32(cb[12:], c+i)
 	return cb
 }
+
+// pow returns h^n in GF(2^128) (square and multiply on the bitwise mul); pow(h,0) = 1 (the element 0x80 00..00).
+func pow(h el, n uint64) el {
+	r := el{hi: 0x8000000000000000}
+	b := h
+	for n > 0 {
+		if n&1 == 1 {
+			r = mul(r, b)
+		}
+		b = mul(b, b)
+		n >>= 1
+	}
+	return r
+}
+
+// BlocksParallel absorbs b like Blocks, but splits it into `workers` runs of whole blocks that are hashed from the zero state
+// concurrently and folded with y <- y*H^n xor P (n = blocks in the run, P = the run's GHASH from zero). Same result as Blocks;
+// meant for inputs of gigabytes, where the bitwise multiplication would take minutes on one core.
+func (g *GHashStream) BlocksParallel(b []byte, workers int) {
+	nblk := (len(b) + 15) / 16
+	if workers < 2 || nblk < 4*workers {
+		g.Blocks(b)
+		return
+	}
+	per := nblk / workers
+	type part struct {
+		p el
+		n uint64
+	}
+	parts := make([]part, workers)
+	done := make(chan int, workers)
+	for w := 0; w < workers; w++ {
+		lo, hi := w*per*16, (w+1)*per*16
+		if w == workers-1 {
+			hi = len(b)
+		}
+		go func(w int, chunk []byte) {
+			s := GHashStream{h: g.h}
+			s.Blocks(chunk)
+			parts[w] = part{s.y, uint64((len(chunk) + 15) / 16)}
+			done <- w
+		}(w, b[lo:hi])
+	}
+	for w := 0; w < workers; w++ {
+		<-done
+	}
+	for _, p := range parts {
+		g.y = mul(g.y, pow(g.h, p.n)).xor(p.p)
+	}
+}
